@@ -17,7 +17,8 @@ import (
 // Val is a value spec: it has an anko spelling (src) and a Go value (goValue).
 //
 //	k: i int64 | f float64 | s string | b bool | n nil | l untyped list |
-//	   ti []int64{..} | tf []float64{..} | ts []string{..} | m untyped map | msi map[string]int64{..}
+//	   ti []int64{..} | tf []float64{..} | ts []string{..} | m untyped map | msi map[string]int64{..} |
+//	   hs the predefined variable hs = struct{X interface}{X: [1, 2]} (comparable type, unhashable value)
 type Val struct {
 	K  string  `json:"k"`
 	I  int64   `json:"i,omitempty"`
@@ -27,6 +28,9 @@ type Val struct {
 	L  []Val   `json:"l,omitempty"`  // elements of l / ti / tf / ts
 	MK []Val   `json:"mk,omitempty"` // keys of m / msi (basic kinds only)
 	MV []Val   `json:"mv,omitempty"` // values of m / msi
+	// W: how the operand reaches the operation: "" literal | elem `[lit][0]` (read from a
+	// container, still wrapped in an interface) | id `id(lit)` (returned by a script function)
+	W string `json:"w,omitempty"`
 }
 
 // Idx is an index spec, resolved against the current len/cap of the target at
@@ -53,6 +57,8 @@ type Step struct {
 	V    *Val   `json:"v,omitempty"`   // value operand
 	Name string `json:"name,omitempty"`
 	Init *Init  `json:"init,omitempty"`
+	R    *int   `json:"r,omitempty"`  // app / call(app): the right operand is the variable of this slot
+	LE   string `json:"le,omitempty"` // app "=+": the left operand is a fresh empty slice of T's type: lit | make0 | makecap
 }
 
 // Init describes how a slot is (re)created.
@@ -132,7 +138,19 @@ func floatSrc(f float64) string {
 }
 
 func (v Val) src() string {
+	switch v.W {
+	case "elem":
+		return "[" + v.lit() + "][0]"
+	case "id":
+		return "id(" + v.lit() + ")"
+	}
+	return v.lit()
+}
+
+func (v Val) lit() string {
 	switch v.K {
+	case "hs":
+		return "hs"
 	case "i":
 		return intSrc(v.I)
 	case "f":
@@ -179,6 +197,8 @@ func (v Val) src() string {
 // goValue builds a fresh Go value for the spec (nil for "n").
 func (v Val) goValue() interface{} {
 	switch v.K {
+	case "hs":
+		return struct{ X interface{} }{X: []interface{}{int64(1), int64(2)}}
 	case "i":
 		return v.I
 	case "f":
@@ -231,7 +251,7 @@ func (v Val) goValue() interface{} {
 
 func (v Val) composite() bool {
 	switch v.K {
-	case "l", "ti", "tf", "ts", "m", "msi":
+	case "l", "ti", "tf", "ts", "m", "msi", "hs":
 		return true
 	}
 	return false
@@ -247,6 +267,11 @@ func (v Val) sliceLike() bool {
 
 // class is a short label for the evidence counters.
 func (v Val) class() string {
+	if v.W != "" {
+		w := v
+		w.W = ""
+		return w.class() + "/" + v.W
+	}
 	switch v.K {
 	case "i":
 		return "int"
@@ -262,6 +287,8 @@ func (v Val) class() string {
 		return "list"
 	case "m":
 		return "map"
+	case "hs":
+		return "unhashable_struct"
 	}
 	return v.K
 }
